@@ -420,6 +420,14 @@ func selectRemoteAddedModuleForOpaqueIDIgnoreTargeting(
 	if len(uniqueAddedModules) == 1 {
 		return uniqueAddedModules[0], nil
 	}
+	// Map iteration order is random: sort by commit ID so that the selection below is the same
+	// every time, also when two commits have the same create time.
+	sort.Slice(
+		uniqueAddedModules,
+		func(i int, j int) bool {
+			return uniqueAddedModules[i].remoteModuleKey.CommitID().String() < uniqueAddedModules[j].remoteModuleKey.CommitID().String()
+		},
+	)
 
 	// We now know that we have non-unique remote added Modules, and have selected exactly one addedModule per commit ID.
 
